@@ -18,15 +18,23 @@ class _DG:
 
 
 class _Amp:
+    """stand-in for the amplitude model: one chain per resonance; the selection lives in decay_group.chains_idx only (as in the library)"""
+
     def __init__(self, res):
         self.res = list(res)
         self.used_res = list(res)
         self.trainable_variables = ["v0", "v1"]
         self.decay_group = _DG(len(res))
-        self.selected = list(res)
+
+    @property
+    def selected(self):
+        return [self.res[i] for i in self.decay_group.chains_idx]
+
+    @selected.setter
+    def selected(self, res):
+        self.decay_group.set_used_chains([self.res.index(r) for r in res])
 
     def set_used_res(self, res):
-        self.selected = list(res)
         self.decay_group.set_used_chains([self.res.index(r) for r in res])
 
 
@@ -107,3 +115,83 @@ for _R in (1, 2, 3, 4):
           tiers=("quick", "thorough") if _R <= 3 else ("thorough",), cost=_R * 2, bound="R = %d resonances, one chain each" % _R,
           assumes=["A-AD: sum_gradient returns the integral of the currently selected resonances and its exact gradient",
                    "the integral is the quadratic form I(S) = sum_{k,l in S} G_kl with symmetric G (linear superposition of chain amplitudes: C03 first clause)"])(_mk(_R))
+
+
+# ---------------------------------------------------------------------------------------------
+# the "new" method: class FitFractions accumulates integrals and their gradients batch by batch (append_int), then forms the fractions
+# ---------------------------------------------------------------------------------------------
+def _mk_class(R, n_batch):
+    def g(ctx):
+        ff = ctx.mod("fitfractions")
+        ff.np = ctx.shim.NpProxy()
+        th = _theta(ctx)
+        names = ["R%d" % i for i in range(R)]
+        for b in range(n_batch):
+            for i in range(R):
+                for j in range(i, R):
+                    declare_uf("G%d_%d%d" % (b, i, j), 2)
+
+        def G(b, i, j, idx=()):
+            i, j = min(i, j), max(i, j)
+            return uf("G%d_%d%d" % (b, i, j), th, idx)
+
+        amp = _Amp(names)
+
+        def integral(b, sel, idx=()):
+            ids = [amp.res.index(r) for r in sel]
+            acc = tm.ZERO
+            for a in ids:
+                for c in ids:
+                    acc = tm.add(acc, G(b, a, c, idx))
+            return acc
+
+        def eval_integral(f, data, var, weight=None, args=(), no_grad=False, kwargs=None):
+            b = data["batch"]
+            sel = list(f.selected)
+            grad = np.empty((2,), dtype=object)
+            grad[0], grad[1] = integral(b, sel, (0,)), integral(b, sel, (1,))
+            return integral(b, sel), grad
+
+        ff.eval_integral = eval_integral
+        fr = ff.FitFractions(amp, list(names))
+        fr.init_res_table()
+        for b in range(n_batch):
+            fr.append_int({"batch": b, "weight": 1.0})
+        total = tm.ZERO
+        for b in range(n_batch):
+            total = tm.add(total, integral(b, names))
+        ctx.require(_S(ctx, total) > 0.0, "total integral positive")
+        import contextlib
+        import io
+
+        with contextlib.redirect_stdout(io.StringIO()):
+            frac, gfrac = fr.get_frac_grad(sum_diag=False)
+        acc = tm.ZERO
+        for k, v in frac.items():
+            acc = tm.add(acc, _el(v))
+        ctx.eq("sum_rule", _S(ctx, acc), 1.0, clause="FitFractions (method new), %d batches: sum_i FF_i + sum_{i<j} FF_ij == 1 (R=%d)" % (n_batch, R))
+
+        def tot_int(sel):
+            t = tm.ZERO
+            for b in range(n_batch):
+                t = tm.add(t, integral(b, sel))
+            return t
+
+        for i in range(R):
+            ctx.eq("diag[%d]" % i, _S(ctx, _el(frac[names[i]])), _S(ctx, tm.div(tot_int([names[i]]), total)), clause="FF_i == sum_batches I_b({i}) / sum_batches I_b(all)")
+        for key, gv in gfrac.items():
+            nm = key if isinstance(key, str) else "x".join(key)
+            for k in range(2):
+                ctx.eq("grad[%s][%d]" % (nm, k), _S(ctx, _el(gv[k])), _S(ctx, _d(_el(frac[key]), th, k)),
+                       clause="returned gradient of the fraction == d(fraction)/d theta_k with ALL batches accumulated in numerator and denominator")
+        ctx.holds("selection_restored", ctx.tf.constant(amp.decay_group.chains_idx == list(range(R))), clause="the chain selection after append_int equals the selection on entry")
+
+    return g
+
+
+for _R, _nb in ((2, 1), (2, 2), (3, 2), (2, 3)):
+    group(["C03", "C09"], "fitfractions.FitFractions/R=%d/batches=%d" % (_R, _nb), ["fitfractions:FitFractions.append_int", "fitfractions:FitFractions.get_frac_grad",
+                                                                               "fitfractions:FitFractions.init_res_table"], no_native=True, cost=2 * _R * _nb,
+          bound="R = %d resonances (one chain each), %d integration batches" % (_R, _nb),
+          assumes=["A-AD: eval_integral returns the integral of the currently selected resonances over ONE batch and its exact gradient",
+                   "the per-batch integral is the quadratic form I_b(S) = sum_{k,l in S} G^b_kl with symmetric G"])(_mk_class(_R, _nb))
